@@ -32,6 +32,10 @@ class Stop:
     def body(self, s, p):
         aoenv.reset()
         script = {"S": [("stop",)]}
+        if p.get("arm"):
+            # the step that is in flight when stop() arrives starts a timed source of its own
+            script["A"] = [("call", lambda chart, e: chart.post_fifo(Event(signal="D", payload="armed"), period=0.5, times=0,
+                                                                     deferred=p["arm"] == "deferred"))]
         a1 = H.new_ao("a1", H.make_state(name="st1", script=script))
         a2 = H.new_ao("a2", H.make_state(name="st2"), start=False)
         a2.subscribe(Event(signal="C"))
@@ -129,6 +133,9 @@ def params(tier):
             b = 1 if (q and (sources == 2 or pending == 2)) else 2
             ps.append({"mode": "outside", "pending": pending, "sources": sources, "bound": b,
                        "time_horizon": 0.5 if sources else 0.0})
+    for arm in ("deferred", "now"):
+        ps.append({"mode": "outside", "pending": 1, "sources": 0, "arm": arm, "bound": 1 if q else 2, "time_horizon": 0.5})
+    ps.append({"mode": "outside", "pending": 2, "sources": 1, "arm": "deferred", "bound": 1, "time_horizon": 0.5})
     for pending in (0, 1):
         for sources in (0, 1):
             ps.append({"mode": "handler", "pending": pending, "sources": sources, "bound": 1 if q else 2,
